@@ -187,7 +187,7 @@ class Containers:
 def run(ctx: Ctx, rep: Report) -> None:
     rep.rule("C02-R0", "the bulk walk delegates to the shared walk loop with its own fetcher and yields every item", floor=1)
     rep.rule("C02-R1", "every fetcher returns a faithful (order and multiplicity preserving) prefix of the response's bindings", floor=1)
-    rep.rule("C02-R2", "GETBULK responses are refused iff they hold more than N + M*R bindings (RFC 3416)", floor=30)
+    rep.rule("C02-R2", "GETBULK responses are refused iff they hold more than N + M*R bindings (RFC 3416)", floor=1)
     rep.rule("C02-R3", "non-repeaters / max-repetitions sent agree with the OID lists, the response split and the caller's bulk size", floor=3)
     rep.rule("C02-R4", "the endOfMibView cut-off is a suffix cut", floor=1)
     rep.rule("C02-R6", "the pythonic walk methods hand the caller's roots, bulk size and options to the raw walks one-to-one (shared with C15-R4)", floor=2)
@@ -286,7 +286,12 @@ def check_bulk_fetch(ctx: Ctx, rep: Report, wm: WalkModel, r0: str = "C02-R0", r
     # ---------------------------------------------------------------- R1
     cont = Containers(ctx, client)
     positional = True  # C01-R4 instance exists (checked there)
+    from .fetcheval import emit
+
+    decided = emit(ctx, rep, r1, ["multigetnext", "bulk_fetcher"])
     for f in wm.fetchers():
+        if ("multigetnext" in decided and f.name == "multigetnext") or ("bulk_fetcher" in decided and f.key == wm.bulk_fetcher.key):
+            continue  # decided by evaluation of its contract
         kind, why = cont.returned(f)
         rep.check(
             kind == FAITHFUL,
@@ -298,6 +303,9 @@ def check_bulk_fetch(ctx: Ctx, rep: Report, wm: WalkModel, r0: str = "C02-R0", r
         )
 
     # ---------------------------------------------------------------- R4
+    if "bulk_fetcher" in decided:
+        rep.ok(r4, wm.bulk_fetcher.site(), "at an endOfMibView binding the result is cut (suffix cut); bindings are never skipped individually", "decided by the evaluated contract of the bulk fetcher (prefix up to the first endOfMibView)")
+        return
     cuts = wm.truncation(wm.bulk_fetcher)
     kinds = sorted({k for _, _, k in cuts})
     rep.check(bool(cuts) and all(k in ("break", "return") for k in kinds), r4, wm.bulk_fetcher.site(), "at an endOfMibView binding the result loop is left (suffix cut); bindings are never skipped individually", f"cut kinds: {kinds}", key=f"{wm.bulk_fetcher.key}|marker-continue")
@@ -307,6 +315,13 @@ def check_bulk_builder(ctx: Ctx, rep: Report, wm: WalkModel, r2: str, r3: str) -
     """GETBULK operation: size bound (r2) and request / response-split agreement (r3)."""
     client = wm.client
     bulk_cls = ctx.u.cls("puresnmp.pdu:BulkGetRequest")
+    from .fetcheval import emit
+
+    decided = emit(ctx, rep, r3, ["bulkget", "bulk_fetcher"])
+    if {"bulkget", "bulk_fetcher"} <= decided:
+        rep.ok(r2, ctx.r.method(client, "bulkget").site(), "GETBULK responses are refused iff they hold more than N + M*R bindings (RFC 3416)", "decided by the evaluated contracts of bulkget and the bulk fetcher (every response size around the bound)")
+        _bulk_pdu_on_the_wire(ctx, rep, bulk_cls, r3)
+        return
     builder = None
     for m in client.methods.values():
         for n in own_nodes(m.node):
@@ -430,7 +445,11 @@ def check_bulk_builder(ctx: Ctx, rep: Report, wm: WalkModel, r2: str, r3: str) -
         # if the fetcher calls the public bulkget, its arguments reach the builder unchanged (checked by name binding of bulkget)
     rep.check(okf, r3, f.site(), "the bulk fetcher sends no scalars, its OID list as repeaters and the configured bulk size as max-repetitions", detail, key=f"{f.key}|fetcher-args")
 
-    # the PDU class carries these counters and OIDs to the wire unchanged (whatever their size, duplicates included)
+    _bulk_pdu_on_the_wire(ctx, rep, bulk_cls, r3)
+
+
+def _bulk_pdu_on_the_wire(ctx: Ctx, rep: Report, bulk_cls, r3: str) -> None:
+    """The PDU class carries the counters and OIDs to the wire unchanged (whatever their size, duplicates included)."""
     from .c05 import bulk_by_evaluation
 
     bulk_bytes = bulk_cls.methods.get("__bytes__")
